@@ -330,3 +330,9 @@ CHECKS["C01"]["text"] += " FileStore::do_log_compaction (storage boundary of a c
 CHECKS["C09"]["text"] += (" Fourth build round: ConfigActor::get_config_info_by_keys (the read-by-keys the MCP / console layers use) is under contract, no longer an assumed stub: the answer is exactly the stored rows of the named keys, "
                           "in the order asked, unstored keys skipped, each row carrying the key, the stored content, the stored md5 and the stored description; the count is the number of rows (3 self-test mutations: md5 := content, "
                           "group / data id swapped, lookup under a permuted key).")
+CHECKS["C09"]["text"] += (" ConfigActor::get_config_info_page (the join of a listing page with the store) is under contract too: total = length of THE canonical result list, and for its window [offset, offset+limit) one row per listed key, "
+                          "in page order, carrying the key and the STORED description (content and md5 only when the query asks for them) — the clause 'one row per listed key' is where the store invariant (index within store) meets "
+                          "the index contract; the window clauses assumed for the callee TenantIndex::query_config_page are compared textually, on every run, with the ones proved in unit configindex ([[same_block]]); "
+                          "a window whose end offset + limit overflows usize is not decided (4 self-test mutations).")
+CHECKS["C09"]["note"] = CHECKS["C09"]["note"].replace("ConfigActor::get_config_info_page (joins the page with the store) and the HTTP/gRPC layers are not decided.",
+                          "the derived Default of ConfigInfoDto is axiomatised (T1: Option fields None); ConfigActor::get_history_info_page and the HTTP/gRPC layers are not decided.")
